@@ -1,4 +1,5 @@
 import MpdProofs.Lemmas.Conn
+import MpdProofs.Lemmas.Resume
 /-!
 # C02 — parsed responses do not depend on how the byte stream is split into reads
 
@@ -155,5 +156,31 @@ example :
   intro c hc
   simp only [List.mem_cons, List.mem_nil_iff, or_false] at hc
   rcases hc with rfl | rfl | rfl | rfl <;> decide
+
+/-! ## a read that fails and delivers nothing is one more way of delivering the stream
+
+If a `receive` call ends in a read error, the next call goes on from the connection state the failed
+call left (receive buffer; builder state, fix F12) — and returns exactly what one uninterrupted call on
+the whole script returns. Segmentation independence therefore extends to transports on which single
+reads fail recoverably (time-out, `WouldBlock`, `Interrupted`): no line already consumed is lost. -/
+
+theorem C02_failed_read_invisible_async (k : Nat) (t : Term) (cs1 cs2 : List Bytes) (σ : BState) (buf : Bytes)
+    (h : (recvLoopA σ buf cs1 (.ioerr k)).1 = .io k) :
+    recvLoopA (recvLoopA σ buf cs1 (.ioerr k)).2.2.2 (recvLoopA σ buf cs1 (.ioerr k)).2.1 cs2 t =
+      recvLoopA σ buf (cs1 ++ cs2) t :=
+  recvLoopA_resume k t cs2 cs1 σ buf h
+
+theorem C02_failed_read_invisible_sync (k : Nat) (t : Term) (cs1 cs2 : List Bytes) (f1 f2 : Nat) (σ : BState) (b : SBuf)
+    (h : (recvLoopS f1 σ b cs1 (.ioerr k)).1 = .io k) :
+    ∃ f, recvLoopS f σ b (cs1 ++ cs2) t =
+      recvLoopS (f2 + 1) (recvLoopS f1 σ b cs1 (.ioerr k)).2.2.2 (recvLoopS f1 σ b cs1 (.ioerr k)).2.1 cs2 t :=
+  recvLoopS_resume k t cs2 f2 f1 cs1 σ b h
+
+/-- non-vacuity: a time-out after `foo: bar\n` was consumed; the resumed call returns the whole frame -/
+example : (recvLoopA .initial [] [str "foo: bar\n"] (.ioerr 2)).1 = .io 2 ∧
+    (recvLoopA (recvLoopA .initial [] [str "foo: bar\n"] (.ioerr 2)).2.2.2
+      (recvLoopA .initial [] [str "foo: bar\n"] (.ioerr 2)).2.1 [str "x: y\nOK\n"] .eof).1 =
+      (recvLoopA .initial [] [str "foo: bar\nx: y\nOK\n"] .eof).1 := by
+  decide +kernel
 
 end Mpd.C02
